@@ -13,7 +13,7 @@ ID = "C10"
 LEVEL = "model_checking"
 RULE = ("full product kind x required x nullability notation (none, 3.0 nullable, 3.1 type list, oneOf/anyOf null member, null enum "
         "member) x default (absent/present) x position (model property, body property via an endpoint, query, header, cookie, "
-        "path); every position also with the parameter shared through a path item (3 operations) or a reusable parameter (3 uses); optional model properties also as parent / sibling of a child that re-states them more strictly (2 orders); present state exercised with every sample incl. falsy members and values; thorough: the holder model as JSON body and response of an operation; non-trivial = the class/function was generated and its three states were exercised")
+        "path); every position also with the parameter shared through a path item (3 operations) or a reusable parameter (3 uses); optional model properties also as parent / sibling of a child that re-states them more strictly (2 orders); present state exercised with every sample incl. falsy members and values; thorough: the holder model as JSON body and response of an operation; non-trivial = the class/function was generated and its three states were exercised; kinds include one-member unions (single-entry type list, anyOf / oneOf of one), falsy enum members, a second inline enum resolving to an existing class, typed + allOf-composed nullable objects; decoding twice from one mapping must agree and leave the mapping as it was")
 FLOOR = 0.5
 ASSUMPTIONS = ["nullable iff nullable:true on a typed non-enum schema, 'null' in a type list, a null oneOf/anyOf member, or null among enum values (DESIGN §2.4)"]
 
